@@ -317,10 +317,16 @@ def run(chk):
   for op in ('+', '++'):
     env = {p_: Sym(p_) for p_ in ao.params}
     env[op_param] = Const(op)
-    try:
-      outs = Interp(ao.node, {}, max_paths=200).run(State(env=env))
-    except AnalysisError:
-      outs = []
+    outs = []
+    # a table-driven mapping (loop over a constant table of pairs) is unrolled
+    policies = [dict(loop=lambda n_, s_: 'unroll')] if any(
+        isinstance(x, ast.For) for x in walk_local(ao.node)) else []
+    for hooks in policies + [{}]:
+      try:
+        outs = Interp(ao.node, hooks, max_paths=200).run(State(env=env))
+        break
+      except AnalysisError:
+        outs = []
     vals = {o.value.v for o in outs if o.kind == 'return' and isinstance(o.value, Const)}
     if len(vals) == 1 and all(o.kind == 'return' and isinstance(o.value, Const) for o in outs):
       mapping[op] = vals.pop()
